@@ -8,21 +8,44 @@ LEAN_PROPS = "Dashu.Props.C20"
 LEAN_AUDIT = "Dashu.Audit.C20"
 JOBS = 12
 READY = True
+USES_GEN = True          # lean/Dashu/Gen/MacroGen.lean (vlib/extract_macro.py): decision logic of the code generators of the macros
+GEN_PROPS = ["Dashu.Props.C20Gen", "Dashu.Props.C20GenLoop"]
+GEN_AUDIT = ["Dashu.Audit.C20Gen", "Dashu.Audit.C20GenLoop"]
 
 REFINED = ["quote_bytes / from_le_bytes (heap path)", "le_bytes_to_u{16,32,64}_array + padding + LEN slicing (static path)",
            "u32 const path guard", "parse_integer_with_error token loop on the documented grammar",
            "parse_ratio_with_error token loop (since e26a9db): accepts exactly the documented grammar (sound + complete), and its value "
            "computation equals the run-time parser on the literal's text",
            "RBig / Relaxed reduction of the parsed parts",
-           "float literal -> exact value and precision (C08's literal_exact through the parser the macro model runs)"]
-FRONTIER = ["rustc tokenisation of the literal (generator-side lexer, validated by compiling the sample crate)",
-            "the expansion is read by an interpreter in the harness (constructor paths + data); validated by level (ii): the real proc-macros under rustc",
-            "fbig!'s own sign / underscore stripping and the hexadecimal float forms (0x..p..): mirrored and run, value theorem only for the plain grammar"]
+           "float literal -> exact value and precision (C08's literal_exact through the parser the macro model runs)",
+           "parse_binary_float's own sign / `_` stripping and second-sign refusal (fbigNew, mirrored statement by statement, run by the "
+           "driver): equal to the run-time parser on the text without the macro-only `_`, for every token list; parse_decimal_float likewise",
+           "hexadecimal float forms `[sign] [_] 0x int [. frac] [p exp]`: exact value ± hexdigits * 2^(exp - 4*|frac|), precision 4 bits per digit, "
+           "through the parser and through fbig!; every accepted float literal of any form (underscores, every marker) denotes its digits",
+           "static_ word-array selection (DataSelector table, max_len, INT_SIZE, Select key), const-path guards of all five macros, "
+           "match (signed, static_) generator table, debug_asserts of quote_ubig/quote_ibig, precision handed to each float constructor: "
+           "REGENERATED from macros/src/parse/*.rs (Gen/MacroGen.lean, Tie A) and called by / proved equal to the model (Props/C20Gen)",
+           "the token loops `for token in input { match token {..} }` of parse_integer_with_error and parse_ratio_with_error REGENERATED as "
+           "state machines over the code's `let mut` variables; the hand model (intStepNew / ratStepNew, about which the grammar theorems "
+           "are proved) simulates them step by step for every state and token (Props/C20GenLoop)"]
+FRONTIER = ["rustc tokenisation of the literal (generator-side lexer, validated by compiling the sample crate): kept — rustc's lexer is not "
+            "part of /repo and has no executable model here; level (ii) compiles the sampled invocations with the real compiler",
+            "the expansion is read by an interpreter in the harness (constructor paths + data); validated by level (ii): the real proc-macros "
+            "under rustc: kept — the meaning of a Rust token stream as a program is rustc's, the interpreter covers the constructor calls the "
+            "macros emit and fails closed (`bad-expansion`) on anything else",
+            "clause `whether the macro expands to a const expression ... static word array` for floats: the precision on the static path / of a "
+            "zero literal differs from FromStr (two recorded findings, theorem float_precision_lost + float_path_regenerated say exactly where)",
+            "the constructors called by the expansion (UBig::from_le_bytes, from_static_words, from_parts_const, Repr::new, from_parts) are "
+            "modelled by their value (C07/C19/C05 own them); Tie B runs the real ones"]
 RULE = ("source texts of macro arguments built from the grammar (sign x radix prefix / `base N` for N in 2..36 x underscores x "
         "identifier-shaped digit strings x exponent / hex-float / fraction / `~` forms) with magnitudes on both sides of the "
         "32-bit const path, the DoubleWord boundary and multi-word values of every byte-length residue mod 8, each expanded as "
         "plain and as static_ variant, plus malformed token sequences (extra signs, missing / doubled parts, wrong `base`, "
-        "groups, foreign literals). Level (i): expansion functions called at run time, expansion interpreted with the real "
+        "groups, foreign literals); round 5: `base N` and decimal exponents at every extreme u32 / isize value (0, 1, W±1, 2^31, "
+        "2^32±k, 2^63±k, 2^64-k), every alphanumeric character in first / middle / last position of a value token with the radix "
+        "just below / above its digit value, every punctuation token in every position of a valid literal of every macro, doubled / "
+        "dropped / swapped tokens, the `_` identifier and foreign literal tokens, and 2^k-1, 2^k, 2^k+1 for EVERY k (integer, binary / "
+        "hexadecimal significand, numerator / denominator), 10^n±1 for every n, r^n±1 around 2^32 / 2^64 / 2^128 for every radix. Level (i): expansion functions called at run time, expansion interpreted with the real "
         "constructors, compared with the model and the run-time parser. Level (ii): a generated crate of invocations of the real "
         "proc-macros compiled by rustc (values) and a compile_fail crate (must-be-errors). Non-trivial := every case; distinct "
         ":= distinct (macro, mode, token list).")
@@ -30,8 +53,10 @@ EXPLANATION = ("Theorems: the three code generators denote the parsed value — 
                "word arrays emitted by quote_words, sliced to LEN, denote the same number as the bytes for every selector, are "
                "zero padded to the common length and end in a non-zero word (the from_static_words assertion); the const path is "
                "guarded by bit_len <= 32; on the documented token shapes the macro's token loop agrees with the run-time parser on "
-               "the concatenated text; rational literals come out reduced (relaxed: no common factor 2). Counterexample theorems "
-               "for the token sequences outside the grammar that the code accepts.")
+               "the concatenated text; rational literals come out reduced (relaxed: no common factor 2); fbig!'s own sign / `_` "
+               "stripping equals the run-time parser on every token list and the hexadecimal float forms denote exactly the number "
+               "written; the selection tables and guards of the generators are regenerated from the source (Tie A) and proved "
+               "equal to the model. Counterexample theorems for the token sequences outside the grammar that the code accepted.")
 ASSUMPTIONS = ["rustc tokenises the generated literals as the generator's lexer does (checked on the compiled sample)",
                "quote!/proc_macro2 render integers as suffixed literals (interpreter of the expansion in harness/src/ops_mac.rs)"]
 LEVEL_TEXT = ("Machine-checked Lean 4 theorems that each of the three code generators of the literal macros (u32 const "
@@ -41,8 +66,9 @@ LEVEL_TEXT = ("Machine-checked Lean 4 theorems that each of the three code gener
               "streams and interpreting their output with the real constructors, and by compiling a sample crate (plus a "
               "compile_fail set) with the real proc-macros.")
 LEVEL_NOTE = ("Trusted: Lean kernel; axioms propext/Classical.choice/Quot.sound; the harness interpreter of expansions and the "
-              "generators (sampling) for the model<->code tie; rustc's lexer as replicated by the generator; float literal "
-              "parsing is mirrored and explored, not proved.")
+              "generators (sampling) for the model<->code tie of the token loops and the float stripping; the regenerating "
+              "translator vlib/extract_macro.py for the generator tables and guards; rustc's lexer as replicated by the generator. "
+              "Float literal parsing is C08's proved model (from_str_native = documented grammar on every byte string).")
 TECHNIQUE = "Lean 4 proofs about byte/word encodings and the token state machines + differential expansion at run time + compiled sample crate"
 
 
@@ -98,7 +124,7 @@ def kf(kind, macro, args, impl, model):
             return False
         sig = int(m.group(1), 16)
         if kind == "static-precision":
-            return mode == "static" and abs(sig).bit_length() > 32
+            return mode in ("static", "estatic") and abs(sig).bit_length() > 32
         if kind == "zero-precision":
             return sig == 0
     except Exception:
@@ -175,6 +201,8 @@ def lex_number(s, i):
             j += 1
     return j
 
+PUNCTS = "+-/~.@*!,;%^&|=<>:#$?"          # every single-character punctuation token a proc-macro can receive (`'` starts a lifetime)
+
 def lex(src):
     """token list [(kind, text)] of a macro argument, or None for a lexical error"""
     toks = []
@@ -187,9 +215,7 @@ def lex(src):
             j = i + 1
             while j < n and _is_id_cont(src[j]):
                 j += 1
-            if src[i:j] == "_":
-                return None               # `_` alone is not an identifier token we model
-            toks.append(("I", src[i:j])); i = j
+            toks.append(("I", src[i:j])); i = j       # (`_` alone reaches a proc-macro as an identifier token)
         elif c.isdigit():
             j = lex_number(src, i)
             if j is None:
@@ -203,7 +229,7 @@ def lex(src):
             if inner is None or len(inner) != 1 or inner[0][0] != "L":
                 return None
             toks.append(("G", inner[0][1])); i = j + 1
-        elif c in "+-/~.@*!,;":
+        elif c in PUNCTS:
             toks.append(("P", c)); i += 1
         else:
             return None
@@ -466,6 +492,167 @@ def gen_ratio(rng, tier):
                 yield c
 
 
+# ---------------------------------------------------------------------------------- round 5: extreme arguments, full alphabets, every magnitude
+
+W = 64
+def extreme_unsigned(rng, full):
+    """ROUND4 addendum E1: the values a u32 / u64 / usize argument must be driven with"""
+    vs = [0, 1, 2, W - 1, W, W + 1, 2 * W, 2 ** 31 - 1, 2 ** 31, 2 ** 32 - 1, 2 ** 32, 2 ** 63 - 1, 2 ** 63, 2 ** 64 - 1, 2 ** 64, 2 ** 64 + 1, 2 ** 128]
+    ks = range(0, 131) if full else sorted(set([0, 1, 2, 3, 35, 36, 37, 63, 64, 65, 127, 128, 129, 130] + [rng.randrange(0, 131) for _ in range(6)]))
+    for k in ks:
+        vs += [2 ** 32 + k, 2 ** 64 - 1 - k, 2 ** 32 - 1 - k, 2 ** 63 - 1 - k, 2 ** 63 + k]
+    return vs
+
+ALNUM = "0123456789abcdefghijklmnopqrstuvwxyzABCDEFGHIJKLMNOPQRSTUVWXYZ"
+
+def digit_value(c):
+    return int(c, 36)
+
+def gen_extreme(rng, tier):
+    full = tier != "quick"
+    # (E1) `base N`: N is parsed as u32 at expansion time — every kind of extreme value, on every macro with a radix
+    for N in extreme_unsigned(rng, full):
+        for kind, body in (("ubig", "10"), ("ibig", "-10"), ("rbig", "10/11"), ("rbig", "~1")):
+            for mode in (("plain", "static") if (full or rng.random() < 0.3) else (rng.choice(["plain", "static"]),)):
+                c = case_of(kind, mode, "%s base %d" % (body, N))
+                if c:
+                    yield c
+    # (E1) the decimal exponent of a float literal is an isize: extremes of both signs, with and without fraction /
+    # trailing zeros (normalisation moves the exponent), every scale marker
+    exps = [0, 1, 2, W - 1, W, W + 1, 2 * W, 2 ** 31 - 1, 2 ** 31, 2 ** 32 - 1, 2 ** 32, 2 ** 32 + 1, 2 ** 32 + 129, 2 ** 62, 2 ** 63 - 130, 2 ** 63 - 2,
+            2 ** 63 - 1, 2 ** 63, 2 ** 63 + 1, 2 ** 64 - 1, 2 ** 64, 2 ** 64 + 5]
+    if full:
+        exps += [2 ** 63 - 1 - k for k in range(2, 131)] + [2 ** 32 + k for k in range(2, 130)]
+    for e in exps:
+        for sg in ("", "-", "+"):
+            for mant in ("1", "10", "1000", "1.5", "0.001", "0", "123456789012"):
+                if not full and rng.random() < 0.6:
+                    continue
+                for kind, marks in (("dbig", ["e", "E", "@"]), ("fbig", ["b", "B", "@"])):
+                    m = mant if kind == "dbig" else {"1.5": "1.1", "123456789012": "1" * 40, "0.001": "0.001"}.get(mant, mant.replace("2", "1").replace("3", "1"))
+                    c = case_of(kind, rng.choice(["plain", "static"]), "%s%s%s%d" % (m, rng.choice(marks), sg, e))
+                    if c:
+                        yield c
+        for sg in ("", "-", "+"):
+            c = case_of("fbig", rng.choice(["plain", "static"]), "0x1.8%s%s%d" % (rng.choice("pP@"), sg, e))
+            if c:
+                yield c
+            c = case_of("fbig", rng.choice(["plain", "static"]), "-_0x%s%s%s%d" % (rng.choice(["f", "10", "ff00"]), rng.choice("pP"), sg, e))
+            if c:
+                yield c
+    # (E2) every alphanumeric character in the first / a middle / the last position of a value token, with a radix
+    # just above and just below the character's digit value and the largest radix: accepted iff digit < radix
+    for ch in ALNUM:
+        d = digit_value(ch)
+        for N in sorted(set([max(d, 2), min(d + 1, 36), 36, 10])):
+            for pos in ("first", "mid", "last"):
+                core_digits = "10" if N == 2 else "1" + DIG[rng.randrange(0, N)]
+                txt = {"first": ch + core_digits, "mid": "1" + ch + core_digits, "last": core_digits + ch}[pos]
+                if rng.random() < 0.3:
+                    txt = "_" + txt
+                for kind in (("ubig", "ibig", "rbig", "rbig/") if full else (rng.choice(["ubig", "ibig"]), rng.choice(["rbig", "rbig/"]))):
+                    mode = rng.choice(["plain", "static"])
+                    if kind == "rbig/":
+                        c = case_of("rbig", mode, "1/%s base %d" % (txt, N))
+                    else:
+                        c = case_of(kind, mode, "%s base %d" % (txt, N))
+                    if c:
+                        yield c
+        # without `base`: the character as a digit of a prefixed / decimal literal and of the float macros
+        for src_kind in (("ubig", "0x1%s" % ch), ("ubig", "0o1%s" % ch), ("ubig", "0b1%s" % ch), ("ibig", "-1%s" % ch), ("ubig", "%s1" % ch),
+                         ("dbig", "1%s" % ch), ("dbig", "1.%s" % ch), ("dbig", "1%s1" % ch), ("fbig", "1%s" % ch), ("fbig", "1.%s" % ch), ("fbig", "0x1%s" % ch),
+                         ("fbig", "_0x1.%s" % ch), ("fbig", "1%s1" % ch), ("fbig", "0x1%s1" % ch), ("rbig", "1%s/3" % ch), ("rbig", "3/1%s" % ch), ("rbig", "0x1%s/0x2" % ch)):
+            c = case_of(src_kind[0], rng.choice(["plain", "static"]), src_kind[1])
+            if c:
+                yield c
+    # (E2) every punctuation token in every position of a valid literal of every macro
+    seeds = [("ubig", ["L:12"]), ("ubig", ["L:12", "I:base", "L:10"]), ("ibig", ["P:-", "L:12"]), ("ibig", ["P:+", "I:ff", "I:base", "L:16"]),
+             ("fbig", ["P:-", "L:101", "P:.", "L:01"]), ("fbig", ["I:_0x1f", "P:.", "L:8"]), ("fbig", ["L:0x1p5"]), ("dbig", ["L:1.5e3"]), ("dbig", ["P:-", "L:12"]),
+             ("dbig", ["L:1", "P:.", "L:5"]), ("rbig", ["L:1", "P:/", "L:2"]), ("rbig", ["P:~", "P:-", "L:4", "P:/", "P:+", "L:6", "I:base", "L:10"]), ("rbig", ["L:7"])]
+    for kind, toks in seeds:
+        for p in PUNCTS + "'":
+            for pos in range(len(toks) + 1):
+                if not full and rng.random() < 0.5:
+                    continue
+                yield Case("mac." + kind, [rng.choice(["plain", "static"])] + toks[:pos] + ["P:" + p] + toks[pos:])
+        # a token doubled / dropped / swapped
+        for pos in range(len(toks)):
+            yield Case("mac." + kind, ["plain"] + toks[:pos] + [toks[pos]] + toks[pos:])
+            if len(toks) > 1:
+                yield Case("mac." + kind, ["plain"] + toks[:pos] + toks[pos + 1:])
+            if pos + 1 < len(toks):
+                yield Case("mac." + kind, ["plain"] + toks[:pos] + [toks[pos + 1], toks[pos]] + toks[pos + 2:])
+    # the `_` identifier (macro-only prefix of fbig!, never a number elsewhere) and foreign literal tokens
+    for kind in ("ubig", "ibig", "fbig", "dbig", "rbig"):
+        for toks in (["I:_"], ["I:_", "L:1"], ["I:_", "P:+", "L:1"], ["I:_", "P:-", "L:1"], ["I:_", "P:-", "L:0"], ["P:-", "I:_", "L:1"], ["P:-", "I:_", "P:-", "L:1"],
+                     ["P:+", "I:_", "P:+", "L:1"], ["I:_", "I:_", "L:1"], ["I:_", "I:_1"], ["I:__"], ["L:1", "I:_"], ["I:_", "I:base", "L:10"], ["L:1", "I:base", "I:_"],
+                     ["I:_", "P:.", "L:1"], ["I:_", "L:0x1", "P:.", "L:8"], ["P:-", "I:_", "L:0x1", "P:.", "L:8p1"], ["I:_", "P:/", "L:1"], ["L:1", "P:/", "I:_"],
+                     ['L:"12"'], ["L:'1'"], ["L:b'1'"], ['L:b"1"'], ["L:1.5f32"], ["L:1f64"], ["L:12u128"], ["L:0x1fu8"], ['L:r"1"'], ["L:1i8", "I:base", "L:10"],
+                     ["L:1", "I:base", "L:10u32"], ["L:1", "I:base", 'L:"10"'], ["L:1", "I:base", "L:1e1"], ["L:1", "I:base", "L:10.0"], ["L:1", "I:base", "L:0x10"],
+                     ["L:1", "I:base", "L:00000000000000000000000000000000000010"], ["L:1", "I:r#base", "L:10"]):
+            if any(t.startswith("I:r#") for t in toks):
+                continue                      # raw identifiers: not expressible through Ident::new of the harness
+            for mode in ("plain", "static"):
+                yield Case("mac." + kind, [mode] + toks)
+
+
+def gen_magnitudes(rng, tier):
+    """boundary classes for k of EVERY bit length (ROUND4 addendum E2): 2^k - 1, 2^k, 2^k + 1 as integer literal, as float
+    significand (binary, hexadecimal, decimal 10^n ± 1), as numerator / denominator; r^n ± 1 around the const (2^32), DoubleWord
+    (2^64 / 2^128) boundaries for every radix"""
+    kmax = 140 if tier == "quick" else 400
+    for k in range(1, kmax + 1):
+        for m in (2 ** k - 1, 2 ** k, 2 ** k + 1):
+            kind = rng.choice(["ubig", "ibig"]); mode = rng.choice(["plain", "static"])
+            style = rng.choice(["dec", "prefix", "base"])
+            r = 10 if style == "dec" else (rng.choice([2, 8, 16]) if style == "prefix" else rng.randrange(2, 37))
+            txt, base = int_text(rng, m, r, style)
+            c = case_of(kind, mode, ("-" if kind == "ibig" and rng.random() < 0.5 else "") + txt + ((" base %d" % base) if base else ""))
+            if c:
+                yield c
+            # float significands: binary digits, hexadecimal digits (with a fraction point moved through the digits)
+            mode = rng.choice(["plain", "static"])
+            b = to_radix(m, 2)
+            cut = rng.randrange(0, len(b) + 1)
+            src = rng.choice(["", "-", "-_", "+"]) + (b[:cut] + "." + b[cut:] if rng.random() < 0.5 and 0 < cut else b) + rng.choice(["", "b-3", "B7", "@-1"])
+            c = case_of("fbig", mode, src)
+            if c:
+                yield c
+            h = to_radix(m, 16)
+            src = rng.choice(["", "-", "+"]) + "0x" + h + rng.choice(["", "p-3", "P12", "@4"])
+            c = case_of("fbig", rng.choice(["plain", "static"]), src)
+            if c:
+                yield c
+            # rationals with this numerator / denominator (reduced or not)
+            o = rng.choice([1, 3, 2 ** 31 - 1, 2 ** 32 - 1, 2 ** 32, 2 ** 32 + 1, 2 ** 64, m])
+            a, b2 = (m, o) if rng.random() < 0.5 else (o, m)
+            c = case_of("rbig", rng.choice(["plain", "static"]), "%s%s%s/%s" % (rng.choice(["", "~"]), rng.choice(["", "-"]), a, b2))
+            if c:
+                yield c
+    for n in range(1, 46 if tier == "quick" else 120):
+        for m in (10 ** n - 1, 10 ** n, 10 ** n + 1):
+            d = str(m)
+            cut = rng.randrange(0, len(d) + 1)
+            src = rng.choice(["", "-", "+"]) + (d[:cut] + "." + d[cut:] if 0 < cut and rng.random() < 0.6 else d) + rng.choice(["", "e-3", "E12", "@4"])
+            for mode in ("plain", "static"):
+                c = case_of("dbig", mode, src)
+                if c:
+                    yield c
+    for r in range(2, 37):
+        for T in (32, 64, 128):
+            n = 1
+            while r ** n < 2 ** T:
+                n += 1
+            for m in (r ** n - 1, r ** n, r ** n + 1, r ** (n - 1) - 1, r ** (n - 1), r ** (n - 1) + 1, 2 ** T - 1, 2 ** T):
+                if tier == "quick" and rng.random() < 0.5:
+                    continue
+                txt, base = int_text(rng, m, r, "base")
+                kind = rng.choice(["ubig", "ibig", "rbig"])
+                c = case_of(kind, rng.choice(["plain", "static"]), txt + " base %d" % r)
+                if c:
+                    yield c
+
+
 # ---------------------------------------------------------------------------------- level (ii): the real proc-macros under rustc
 
 SAMPLE_SEED = 20260929
@@ -476,7 +663,15 @@ def compiled_sets():
     A, F = [], []
     pool = list(gen_int(rng, "quick")) + list(gen_float(rng, "quick")) + list(gen_ratio(rng, "quick"))
     rng.shuffle(pool)
-    return pool
+    # round 5: the real compiler is also asked about the extreme-argument / full-alphabet classes (interleaved 1:1 at the head of
+    # the pool, so both the accepted and the must-be-error samples contain them); a lone `'` is not a token rustc can lex
+    extra = [c for c in gen_extreme(random.Random(SAMPLE_SEED + 1), "quick") if "P:'" not in c.args]
+    random.Random(SAMPLE_SEED + 2).shuffle(extra)
+    extra = extra[:260]
+    head = []
+    for a, b in zip(extra, pool):
+        head += [a, b]
+    return head + pool[len(extra):]
 
 def rust_src(c):
     """source text of the invocation: tokens separated by spaces (rustc's lexer gives the same tokens back)"""
@@ -527,6 +722,7 @@ dashu-int = { path = "/repo/integer" }
 dashu-float = { path = "/repo/float" }
 dashu-ratio = { path = "/repo/rational", features = ["dashu-float"] }
 dashu-macros = { path = "/repo/macros" }
+dashu = { path = "/repo/." }
 [profile.dev]
 debug = false
 '''
@@ -534,8 +730,10 @@ debug = false
 _compiled = {"cases": None}
 
 def _invocation(c):
+    """`eplain` / `estatic`: the macro of the `dashu` meta crate (/repo/src/lib.rs), which forwards to the `_embedded` proc-macro"""
     kind = c.op[4:]
-    name = ("static_" if c.args[0] == "static" else "") + MACRO[kind]
+    mode = c.args[0]
+    name = ("dashu::" if mode.startswith("e") else "") + ("static_" if mode.endswith("static") else "") + MACRO[kind]
     return "%s!(%s)" % (name, rust_src(c))
 
 def _cargo(crate, target):
@@ -551,7 +749,7 @@ def pre_build():
     t0 = time.time()
     write_parse_path()
     tier = "thorough" if ("thorough" in sys.argv or os.environ.get("VERIF_TIER") == "thorough") else "quick"
-    nA, nF = (260, 120) if tier == "quick" else (1200, 400)
+    nA, nF = (300, 170) if tier == "quick" else (1200, 400)
     # which literals does the model accept?  ask the model driver (it is built before pre_build runs)
     pool = compiled_sets()
     model_exe = os.path.join(core.LEAN, ".lake", "build", "bin", "drive_mac")
@@ -577,6 +775,10 @@ def pre_build():
                 break
         return res
     A = pick(acc, nA); F = pick([c for c in rej if len(c.args) > 1], nF)
+    # the same invocations through the macros of the `dashu` meta crate (`_embedded` proc-macros, namespaces `::dashu::…`)
+    emb = lambda c: Case(c.op, ["e" + c.args[0]] + c.args[1:])
+    A = A + [emb(c) for c in A[::6]][:50]
+    F = F + [emb(c) for c in F[::6]][:25]
     target = os.path.join(core.CACHE, "mac-target" if core.REPO == "/repo" else "mac-target-alt")
     results = os.path.join(work, "compiled.txt")
     lines = []
@@ -637,9 +839,20 @@ def pre_build():
             "seconds": round(time.time() - t0, 1)}
 
 
+def with_embedded(rng, cases, p):
+    """the same invocation through the `_embedded` entry point (what the macros of the `dashu` meta crate, /repo/src/lib.rs,
+    call): the `if embedded` arms of every generator (namespaces `::dashu::integer` …) — mode `eplain` / `estatic`"""
+    for c in cases:
+        yield c
+        if rng.random() < p:
+            yield Case(c.op, ["e" + c.args[0]] + c.args[1:])
+
+
 def generate(rng, tier):
     if _compiled["cases"]:
         yield from _compiled["cases"]
-    yield from gen_int(rng, tier)
-    yield from gen_float(rng, tier)
-    yield from gen_ratio(rng, tier)
+    yield from with_embedded(rng, gen_int(rng, tier), 0.2)
+    yield from with_embedded(rng, gen_float(rng, tier), 0.2)
+    yield from with_embedded(rng, gen_ratio(rng, tier), 0.2)
+    yield from with_embedded(rng, gen_extreme(rng, tier), 0.05)
+    yield from with_embedded(rng, gen_magnitudes(rng, tier), 0.15)
